@@ -125,7 +125,7 @@ Proof.
   inversion E; subst res cx. clear E. cbn [po_atts].
   destruct (run_owners_facts c ev _ _ _ _ _ ER plan_keys_ok OK) as (_ & _ & F).
   destruct (F o) as (firsts & W & Wf). exists firsts. split; [exact W|].
-  rewrite <- (gi_get _ _ _ plan_groups_inv). apply Wf. reflexivity.
+  rewrite <- (gi_get _ _ _ plan_groups_inv). apply Wf. assumption.
 Qed.
 
 (* c31_offline_once: the recipients reported offline are listed without
